@@ -259,7 +259,9 @@ ALPHABETS = {
     "writes": [(0, 0), (0, 1), (1, 0), (1, 1), (2, 0)],
     "badwrites": [(0, 0), (1, 1), (1, 2), (1, 3), (1, 4), (2, 0)],
     "blocks": [(0, 0), (1, 0), (2, 0), (3, 0), (3, 1)],
-    "append": [(0, 1), (1, 1), (2, 0), (4, 0), (4, 1)],
+    # (1, 4)/(1, 2): non-conforming records that the encoder alone would accept (an int beyond 32 bits): only a validating
+    # writer refuses them - also after the file was reopened for append
+    "append": [(0, 1), (1, 4), (1, 2), (2, 0), (4, 0), (4, 1)],
     "append2": [(0, 0), (2, 0), (4, 2), (4, 3), (3, 0)],
 }
 
@@ -295,6 +297,10 @@ def harnesses(tier, seed):
             if th:
                 call = "ob_history(C, ops, si, validator, ci, di)"
                 ps = "ops: List[int], si: int, validator: bool, ci: int, di: int"
+            elif alpha == "append" and name not in ("empty", "nullint"):
+                # validation on/off symbolic: a validating writer must still validate after a reopen for append
+                call = f"ob_history(C, ops, si, validator, {h & 3}, {(h >> 2) & 3})"
+                ps = "ops: List[int], si: int, validator: bool"
             elif name in ("empty", "nullint") and alpha in ("writes", "append"):
                 # zero-byte records: the codec is symbolic as well (an empty payload is the corner case of every
                 # block compressor)
@@ -306,8 +312,8 @@ def harnesses(tier, seed):
             hs.append(Harness(f"history.{name}.{alpha}", "props.l7", ps, call + "[0]", replay_call=call,
                               setup=f"C = case({name!r}, {n}, {alpha!r})",
                               what=f"operation history on {name} ({alpha})",
-                              samples=[([0, 1, 2], 1) + ((False, 0, 1) if th else ((3,) if "ci: int" in ps else ())),
-                                       ([1, 0, 3], 100) + ((True, 1, 0) if th else ((1,) if "ci: int" in ps else ())),
-                                       ([2, 4, 0], 7) + ((False, 2, 2) if th else ((2,) if "ci: int" in ps else ()))],
+                              samples=[([0, 1, 2], 1) + ((False, 0, 1) if th else ((3,) if "ci: int" in ps else ((True,) if "validator: bool" in ps else ()))),
+                                       ([1, 0, 3], 100) + ((True, 1, 0) if th else ((1,) if "ci: int" in ps else ((False,) if "validator: bool" in ps else ()))),
+                                       ([2, 4, 0], 7) + ((False, 2, 2) if th else ((2,) if "ci: int" in ps else ((True,) if "validator: bool" in ps else ())))],
                               key=lambda a, k, nm=name, al=alpha: f"history:{nm}:{al}:" + ",".join(str(o) for o in a[0])))
     return hs
